@@ -161,6 +161,9 @@ class ShapelyPolygon(Domain):
                 n=(n - len(bary_coords)), device=device
             )
             points = torch.cat((bary_coords, random_points.as_tensor), dim=0)
+        elif len(bary_coords) > n:
+            # to many grid points fit into the polygon, just take the first n
+            points = bary_coords[:n]
         return points
 
     def _compute_number_of_points(self, n, d, params):
